@@ -413,7 +413,7 @@ enum Plant {
     None,
     /// a failing `UPDATE zz ..` (missing table) is followed by a hidden child insert
     HiddenRow,
-    /// a failing missing-table INSERT is followed by a hidden insert+delete that burns nothing but leaves a tombstone and shifts COUNT(*)
+    /// a failing missing-table INSERT is followed by a hidden insert + double delete: rows unchanged, COUNT(*) of t one too low
     HiddenCount,
 }
 impl Plant {
@@ -444,9 +444,9 @@ fn eval(base: &Path, kind: Kind, prefix: &[Op], tr: &Track, c: &Cand, bl: &Basel
             let _ = t.exec("INSERT INTO c VALUES (77, NULL)");
         }
         (Plant::HiddenCount, "insert3/k=0/missing-table") => {
-            let _ = t.exec("INSERT INTO c VALUES (77, NULL)");
-            let _ = t.exec("DELETE FROM c WHERE cid = 77");
-            let _ = t.exec("DELETE FROM c WHERE cid = 77");
+            let _ = t.exec("INSERT INTO t VALUES (77, 77, 0, 0)");
+            let _ = t.exec("DELETE FROM t WHERE id = 77");
+            let _ = t.exec("DELETE FROM t WHERE id = 77");
         }
         _ => {}
     }
@@ -712,6 +712,11 @@ impl Check for C06 {
         ];
         s.cap_quick_s = 90;
         s.cap_thorough_s = 1500;
+        // development aid for a heavily shared machine: NAME_CAP_S=<seconds> lifts both deadlines
+        if let Some(c) = std::env::var("C06_CAP_S").ok().and_then(|v| v.parse().ok()) {
+            s.cap_quick_s = c;
+            s.cap_thorough_s = c;
+        }
         vec![s]
     }
 
